@@ -36,10 +36,11 @@ BASE_TYPES = [("i", "45", "UAReferenceType", "HasSubtype"), ("i", "47", "UARefer
               ("i", "24", "UADataType", "BaseDataType"), ("i", "58", "UAObjectType", "BaseObjectType"), ("i", "63", "UAVariableType", "BaseDataVariableType"),
               ("i", "78", "UAObject", "Mandatory"), ("i", "85", "UAObject", "Objects"), ("i", "21", "UADataType", "LocalizedText")]
 
-def gen_graph(rng, n_ns=2, n_nodes=6, hostile=True, with_values=True, dangling=True, closed_base=True, value_gen=None):
+def gen_graph(rng, n_ns=2, n_nodes=6, hostile=True, with_values=True, dangling=True, closed_base=True, value_gen=None, slash_twin=None):
     g = Graph()
     g.uris = ["urn:test:ns%d" % i if rng.random() < 0.7 else "http://example.org/UA/%d/" % i for i in range(n_ns)]
-    if n_ns >= 2 and rng.random() < 0.2:      # two namespaces whose URIs differ only in a final slash (URIs are opaque: they are different namespaces)
+    r_twin = rng.random()
+    if n_ns >= 2 and (slash_twin if slash_twin is not None else r_twin < 0.2):      # two namespaces whose URIs differ only in a final slash (URIs are opaque: they are different namespaces)
         g.uris[1] = g.uris[0][:-1] if g.uris[0].endswith("/") else g.uris[0] + "/"
     # base namespace nodes (always defined in the base document)
     for t, ident, cls, name in BASE_TYPES:
